@@ -567,7 +567,7 @@ def relation_of(e, truth):
         return (e[2], e[1] if t else NEGATE[e[1]], e[3])
     if e[0] == "call" and len(e[2]) == 2:
         last = e[1].split("::")[-1]
-        if last in _CALL_CMP and ("PartialEq" in e[1] or "PartialOrd" in e[1] or "cmp::" in e[1]):
+        if last in _CALL_CMP and ("PartialEq" in e[1] or "PartialOrd" in e[1] or "cmp::" in e[1] or "equality::" in e[1]):
             op = _CALL_CMP[last]
             return (_peel_refs(e[2][0]), op if t else NEGATE[op], _peel_refs(e[2][1]))
     return ("bool", e, t)
@@ -647,3 +647,38 @@ def want_relations(rep, rule, key, rels, wants, at, what):
     rep.ob(rule, key, not missing, "%s: %s" % (what, "; ".join(rel_text(r) for r in rels[:4])) if not missing else
            "%s must hold under `%s`, found: %s" % (what, "`, `".join(missing), "; ".join(rel_text(r) for r in rels[:5]) or "nothing"), at)
     return not missing
+
+
+def disjunct_relations(body, ir, bb):
+    """for a block reached through `a || b || ..` (a join): the relation on each incoming branch edge"""
+    j = bb
+    for _ in range(6):
+        ps = body.pred[j]
+        if len(ps) != 1 or body.blocks[ps[0]]["term"]["k"] == "switch":
+            break
+        j = ps[0]
+    out = []
+    for p_ in body.pred[j]:
+        child = j
+        cur = p_
+        # walk back through straight-line blocks to the deciding switch
+        for _ in range(6):
+            t = body.blocks[cur]["term"]
+            if t["k"] == "switch" or len(body.pred[cur]) != 1:
+                break
+            child, cur = cur, body.pred[cur][0]
+        t = body.blocks[cur]["term"]
+        if t["k"] != "switch":
+            continue
+        raw = None
+        listed = set()
+        for v, tb in t["targets"]:
+            listed.add(bool(v))
+            if tb == child:
+                raw = bool(v)
+        if raw is None and t["otherwise"] == child and len(listed) == 1:
+            raw = not next(iter(listed))
+        if raw is None:
+            continue
+        out.append(relation_of(ir.term_operand(cur, t["o"]), raw))
+    return out
